@@ -44,3 +44,10 @@ Theorem C15_source_unchanged_refuted :
   end.
 Proof. vm_compute. discriminate. Qed.
 Print Assumptions C15_source_unchanged_refuted.
+
+(* obligation regenerated from the source on every run: the code this property runs through keeps exactly the state the
+   model knows (no new attribute, class-level table, module-level binding or caching decorator), see proofs/State*Proofs.v *)
+From KV Require Import StateGen StateBase StateDocumentProofs StatePitchProofs.
+Theorem C15_state_as_modelled : state_document = modelled_state_document /\ state_pitch = modelled_state_pitch.
+Proof. exact (conj state_document_as_modelled state_pitch_as_modelled). Qed.
+Print Assumptions C15_state_as_modelled.
